@@ -15,7 +15,22 @@ import (
 	"golang.org/x/tools/go/ssa/ssautil"
 )
 
-const repoDir = "/repo"
+// repoDir is /repo. GOSYM_TRIAL_REPO points the tool at a scratch worktree for
+// seed trials (so a trial never touches /repo while a sweep reads it); evidence and
+// replays of a trial go under that worktree, never into /verif.
+var repoDir = func() string {
+	if d := os.Getenv("GOSYM_TRIAL_REPO"); d != "" {
+		return d
+	}
+	return "/repo"
+}()
+
+func outDir() string {
+	if d := os.Getenv("GOSYM_TRIAL_REPO"); d != "" {
+		return filepath.Join(d, ".gosym-out")
+	}
+	return verifDir()
+}
 const repoModule = "github.com/Oneledger/protocol"
 
 func verifDir() string {
